@@ -78,9 +78,10 @@ def _setter_wrapper(
 
     @functools.wraps(original_setter)
     def wrapper(self: _SelfT, value: _ValueT) -> None:
-        old_value = getattr(self, property_name)
         journal.record(
-            self, operation, details=_describe(lambda: f"{old_value!r} -> {value!r}")
+            self,
+            operation,
+            details=_describe(lambda: f"{getattr(self, property_name)!r} -> {value!r}"),
         )
         original_setter(self, value)
 
